@@ -127,23 +127,35 @@ def generate(tier, seed, ctx):
     inits = inits + [full, dict(full, split_depth=[], special=[])]
     msgs = []
     k = 0
+    def init_inline(init):
+        """bits / references a state-init takes when placed inline (input shaping only; the verdict is TLC's)"""
+        if init is None:
+            return 0, 0
+        return (5 + (5 if init['split_depth'] else 0) + (2 if init['special'] else 0),
+                sum(1 for f in ('code', 'data', 'library') if init[f]))
+
     for ic in infos:
         info = ic['val']
         hdr_bits = len(ic['enc']['b'])
         hdr_refs = len(ic['enc']['r'])
-        init_choices = [None] + (rng.sample(inits, 3 if q else 8)) + [full]
+        init_choices = [None] + (rng.sample(inits, 2 if q else 8)) + [full]
         for init in init_choices:
-            free = 1023 - hdr_bits - 2 - (0 if init is None else 1)
-            sizes = sorted({0, 1, max(0, free - 1), max(0, free), min(1023, free + 1), 1023, rng.randint(0, 1023)})
-            if q:
-                sizes = rng.sample(sizes, 3) + [max(0, free)]
+            ib, ir = init_inline(init)
+            # body sizes at which a placement stops fitting: init inline / init by reference (or no init)
+            frees = sorted({1023 - hdr_bits - 2 - (0 if init is None else 1) - ib, 1023 - hdr_bits - 2 - (0 if init is None else 1)})
+            edge = sorted({max(0, min(1023, f + d)) for f in frees for d in (0, 1)})
+            other = sorted({0, 1, 1023, rng.randint(0, 1023)} | {max(0, f - 1) for f in frees})
+            sizes = edge + (rng.sample(other, 2) if q else other)
+            # reference budgets: header refs (+ inline init refs) + body refs against 4
+            rbs = sorted({max(0, min(4, 4 - hdr_refs - ir + d)) for d in (0, 1)} | {max(0, min(4, 4 - hdr_refs - (1 if init else 0) + d)) for d in (0, 1)})
             for nb in sizes:
-                for nr in ((0, 4, rng.randint(1, 3)) if q else range(5)):
+                nrs = sorted(set(rng.sample(rbs, 1) + [rng.choice([0, 4])])) if q else range(5)
+                for nr in nrs:
                     k += 1
                     msgs.append({'id': k, 'type': 'MessageL', 'val': {'info': info, 'init': [] if init is None else [init], 'body': leaf_tree(rng, nb, nr)},
                                  'canon': info_canonical(info)})
-    if q and len(msgs) > 1500:
-        msgs = rng.sample(msgs, 1500)
+    if q and len(msgs) > 2400:
+        msgs = rng.sample(msgs, 2400)
     encs = vlib.tlc_map('TlbEncode.tla', [{'id': m['id'], 'type': m['type'], 'val': m['val']} for m in msgs], os.path.join(ctx['work'], 'enc'))
     for m in msgs:
         v = m['val']
@@ -167,6 +179,56 @@ def generate(tier, seed, ctx):
             except Exception as ex:
                 rec['err'] = type(ex).__name__
             out.append(rec)
+    # isolation of values (repeated use): a default-constructed value edited in place must not leak into values built later
+    def nbits(v, w):
+        return [(v >> (w - 1 - i)) & 1 for i in range(w)]
+
+    def cc_val(grams, other):
+        mb = lambda v: list(v.to_bytes((v.bit_length() + 7) // 8, 'big'))
+        return {'c': 'currencies', 'cc': {'grams': mb(grams), 'other': [{'k': nbits(kk, 32), 'v': mb(vv)} for kk, vv in sorted(other.items())]}}
+
+    def hist(obj, ty, val, tag):
+        rec = {'op': 'wrap_ser', 'type': ty, 'val': val, 'tags': ['history', tag]}
+        try:
+            rec['out'] = {'tree': tlbkit.cell_tree(obj.serialize())}
+        except Exception as e:
+            rec['out'] = {'err': type(e).__name__}
+        out.append(rec)
+
+    for rnd in range(2):
+        a = B.CurrencyCollection(5 + rnd)
+        hist(a, 'CurrencyCollection', cc_val(5 + rnd, {}), 'default_extras')
+        if isinstance(getattr(a.other, 'dict', None), dict):
+            a.other.dict[7 + rnd] = 1000
+            hist(a, 'CurrencyCollection', cc_val(5 + rnd, {7 + rnd: 1000}), 'edited_in_place')
+        b = B.CurrencyCollection(9)
+        hist(b, 'CurrencyCollection', cc_val(9, {}), 'fresh_after_edit_of_another')
+        pz = B.CurrencyCollection.deserialize(B.CurrencyCollection(1).serialize().begin_parse())
+        if isinstance(getattr(pz.other, 'dict', None), dict):
+            pz.other.dict[3] = 4
+        pq = B.CurrencyCollection.deserialize(B.CurrencyCollection(2).serialize().begin_parse())
+        hist(pq, 'CurrencyCollection', cc_val(2, {}), 'parsed_after_edit_of_another_parsed')
+        st = A.StateInit()
+        hist(st, 'StateInit', {'c': 'state_init', 'split_depth': [], 'special': [], 'code': [], 'data': [], 'library': []}, 'default_state_init')
+        st.code = tlbkit.tree_to_cell(cell)
+        hist(A.StateInit(), 'StateInit', {'c': 'state_init', 'split_depth': [], 'special': [], 'code': [], 'data': [], 'library': []}, 'fresh_state_init')
+        for w, ty in ((W.WalletV3Data(public_key=bytes(32)), 'WalletV3Data'), (W.WalletV4Data(public_key=bytes(32)), 'WalletV4Data')):
+            val = {'c': 'wallet_v3_data' if ty == 'WalletV3Data' else 'wallet_v4_data', 'seqno': nbits(0, 32), 'wallet_id': nbits(698983191, 32), 'public_key': [0] * 256}
+            if ty == 'WalletV4Data':
+                val['plugins'] = []
+            hist(w, ty, val, 'default_wallet_data')
+        # an internal message whose value is a default-constructed collection, after the edits above
+        mi = T.InternalMsgInfo(True, False, False, lib_addr({'wc': [0] * 8, 'hash': [0] * 256}), lib_addr({'wc': [1] * 8, 'hash': [1] * 256}),
+                               B.CurrencyCollection(3), 0, 0, 0, 0)
+        mv = {'info': {'c': 'int_msg_info', 'ihr_disabled': [1], 'bounce': [0], 'bounced': [0], 'src': {'wc': [0] * 8, 'hash': [0] * 256},
+                       'dest': {'wc': [1] * 8, 'hash': [1] * 256}, 'value': {'grams': [3], 'other': []}, 'ihr_fee': [], 'fwd_fee': [],
+                       'created_lt': [0] * 64, 'created_at': [0] * 32}, 'init': [], 'body': {'b': [1, 1], 'r': []}}
+        rec = {'op': 'msg_ser', 'val': mv, 'tags': ['history', 'message_with_default_collection']}
+        try:
+            rec['out'] = {'tree': tlbkit.cell_tree(T.MessageAny(mi, None, tlbkit.tree_to_cell(mv['body'])).serialize())}
+        except Exception as e:
+            rec['out'] = {'err': type(e).__name__}
+        out.append(rec)
     # stand-alone wrappers
     for case in ctx['mc']['tlb_wrap_g'] + [c for c in ctx['mc']['tlb_msg_g'] if c['type'] == 'StateInit']:
         ty, v = case['type'], case['val']
